@@ -93,7 +93,7 @@ FINDING_RUNS = {'C05-suspend-lowprio': [[12, 0, 2, 6, -1, 0, -1, 2], [2, 0, 2, 6
 
 e2check.run(dict(
     finding_runs=FINDING_RUNS,
-    prop='C05', model='life', harness='e2/life.cpp', bin='e2_life', props=['C05'], translators=[],
+    prop='C05', model='life', harness='e2/life.cpp', bin='e2_life', props=['C05', 'C05t'], translators=[],
     runs=runs, extra_runs=extra_runs, nontrivial=nontrivial, stats=stats, par=3, timeout_s=900,
     rule='life-cycle histories `start cfg; (submit* | external_submit | wait | wait-from-a-task | wait-from-a-second-OS-thread | suspend; [suspend]; [wait]; submit*; resume; [resume] | resume-while-running)*; finalize (main / another OS thread / a task / after an entry function); [suspend; [suspend] | suspend; submit*; resume]; stop` (stop() entered while running or while SUSPENDED, forced for all 8 policies x 1-4 threads in every run of the check) repeated 1-5 times per process with PRNG-chosen thread counts (1-6) and scheduling policies (all 8), task trees with mixed priorities/stack sizes/yields, OS threads submitting concurrently with wait()/stop(), four shutdown styles (finalize then stop; stop entered before finalize with a helper submitting and then finalizing; finalize from a task; entry function returning a value), PRNG timing perturbation at the instrumented sites; non-trivial = the run contains a suspension, at least one restart and a staged task conversion; distinct = distinct argv',
     trusted_extra=['the life-cycle hooks are add-only lines (gac.inc/gac.dec/gac.sample read the counter under the log lock; rt.*/life.* are notes placed after the corresponding store or inside the corresponding mutex)',
